@@ -775,4 +775,168 @@ Proof.
     split; [intros; reflexivity|]. split; [split; [intros; reflexivity|reflexivity]|reflexivity].
   - (* Relocate *) destruct (container_tr c); discriminate H.
 Qed.
+
+(* ---- capacity contract (C07) and the inline promise (C05) -------------------------------------------------------- *)
+Lemma get_set_eq p a x v : get p a = Some v -> get (set p a x) a = x.
+Proof. unfold get. revert a. induction p as [|y p IH]; intros a H; [destruct a; discriminate|].
+  destruct a as [|a]; cbn [set nth] in *; auto. Qed.
+Lemma get_set_neq p a x k : k <> a -> get (set p a x) k = get p k.
+Proof. unfold get. revert a k. induction p as [|y p IH]; intros a k H; [destruct a; reflexivity|].
+  destruct a as [|a], k as [|k]; cbn [set nth]; auto; congruence. Qed.
+
+(* single-pass appends that fit perform no allocator request and keep capacity and storage *)
+Lemma append_input_fits rb : forall vs v0 v ev, VInv v ->
+  len (els v) + len vs <= b_capacity c (w v) ->
+  match append_input c rb v0 v ev vs with
+  | inl (v', ev') => ev' = ev /\ b_capacity c (w v') = b_capacity c (w v) /\ b_store c (w v') = b_store c (w v)
+  | inr _ => False
+  end.
+Proof. induction vs as [|x t IH]; intros v0 v ev Hv Hfit; cbn [append_input].
+  - repeat split; reflexivity.
+  - change (len (x :: t)) with (Z.of_nat (S (length t))) in Hfit. pose proof (len_nonneg t) as Ht. unfold len in Ht.
+    pose proof (one_incr_ok c Hc v (els v ++ [x]) Hv ltac:(rewrite len_app; reflexivity)) as P. unfold ROk_post in P.
+    destruct (one_incr c v (els v ++ [x])) as [[v1 ev1]|[[e vx] evx]].
+    + destruct P as (A & B & L & D & F & _). destruct (F ltac:(unfold len in *; lia)) as (F1 & F2 & ->).
+      specialize (IH v0 v1 (ev ++ []) A ltac:(rewrite B, len_app, F1; change (len [x]) with 1; unfold len in *; lia)).
+      rewrite app_nil_r in *. destruct (append_input c rb v0 v1 ev t) as [[v' ev']|]; [|assumption].
+      destruct IH as (I1 & I2 & I3). repeat split; congruence.
+    + destruct P as (_ & _ & L & _). pose proof (cap_le_limit c Hc (w v) (proj1 Hv)). unfold len in *. lia.
+Qed.
+
+(* operations that change one container through the growing policy only *)
+Definition target (o : op) : option nat :=
+  match o with
+  | PushBack a _ | PushBackRv a _ | EmplaceBack a _ | Insert a _ _ | InsertRv a _ _ | Emplace a _ _ | InsertN a _ _ _
+  | InsertRange a _ _ _ | Erase a _ | EraseRange a _ _ | PopBack a | PopBackVal a | Clear a | Resize a _ | ResizeV a _ _
+  | AssignN a _ _ | AssignRange a _ _ | AppendN a _ | AppendNV a _ _ | AppendRange a _ _ | CopyAssign a _ | At a _ => Some a
+  | _ => None
+  end.
+
+Lemma finish_fits p a r ok v n els' p' res ev x' : get p a = Some v -> ROk_post c v n els' r -> len els' = n ->
+  finish p a r ok = (p', res, ev) -> get p' a = Some x' ->
+  b_capacity c (w v) <= b_capacity c (w x') /\
+  (len (els x') <= b_capacity c (w v) -> b_capacity c (w x') = b_capacity c (w v) /\ b_store c (w x') = b_store c (w v) /\ ev = []).
+Proof. intros Hg Hr Hl H Hx. unfold finish, ROk_post in *. destruct r as [[v' ev']|[[e' v'] ev']]; inversion H; subst.
+  - rewrite (get_set_eq p a _ v Hg) in Hx. inversion Hx; subst. destruct Hr as (A & B & L & D & F & _).
+    split; [assumption|]. intros Hfit. rewrite B in Hfit. apply F. lia.
+  - rewrite (get_set_eq p a _ v Hg) in Hx. inversion Hx; subst. destruct Hr as (-> & -> & _). split; [lia|]. intros _. repeat split; reflexivity.
+Qed.
+
+Theorem step_fits p o a p' r ev x x' : PInv p -> step c p o = (p', r, ev) -> target o = Some a ->
+  (single_pass o = true -> forall e, r <> RThrew e) ->
+  get p a = Some x -> get p' a = Some x' ->
+  b_capacity c (w x) <= b_capacity c (w x') /\
+  (len (els x') <= b_capacity c (w x) -> b_capacity c (w x') = b_capacity c (w x) /\ b_store c (w x') = b_store c (w x) /\ ev = []).
+Proof.
+  intros Hp H Ht Hnt Hx Hx'. unfold step in H.
+  assert (Hsame : p' = p -> ev = [] -> b_capacity c (w x) <= b_capacity c (w x') /\
+     (len (els x') <= b_capacity c (w x) -> b_capacity c (w x') = b_capacity c (w x) /\ b_store c (w x') = b_store c (w x) /\ ev = [])).
+  { intros -> ->. rewrite Hx in Hx'. inversion Hx'; subst. split; [lia|]. intros _. repeat split; reflexivity. }
+  destruct o; try discriminate Ht; inversion Ht; subst a0; unfold on in H; cbv zeta in H; rewrite Hx in H;
+    try match type of H with
+    | context [get p ?b] => destruct (get p b) as [vb|] eqn:Egb; try (inversion H; subst; apply Hsame; reflexivity)
+    end;
+    pose proof (Hp _ _ Hx) as Hv; pose proof (len_nonneg (els x)); pose proof Hv as [HvB HvS]; pose proof (b_size_cap c Hc _ HvB).
+  - (* PushBack *) destruct (arg_ok (els x) g); [|inversion H; subst; apply Hsame; reflexivity].
+    pose proof (grow_incr_ok c Hc x (els x ++ [argval (els x) g]) Hv ltac:(rewrite len_app; reflexivity)) as P.
+    apply (finish_fits p a _ _ x _ _ p' r ev x' Hx P ltac:(rewrite len_app; reflexivity) H Hx').
+  - (* PushBackRv *) destruct (arg_ok (els x) g); [|inversion H; subst; apply Hsame; reflexivity].
+    pose proof (one_incr_ok c Hc x (after_move (is_tc c) (els x) g ++ [argval (els x) g]) Hv (arg_len _ _ _)) as P.
+    apply (finish_fits p a _ _ x _ _ p' r ev x' Hx P (arg_len _ _ _) H Hx').
+  - (* EmplaceBack *) destruct (arg_ok (els x) g); [|inversion H; subst; apply Hsame; reflexivity].
+    pose proof (one_incr_ok c Hc x (els x ++ [argval (els x) g]) Hv ltac:(rewrite len_app; reflexivity)) as P.
+    apply (finish_fits p a _ _ x _ _ p' r ev x' Hx P ltac:(rewrite len_app; reflexivity) H Hx').
+  - (* Insert *) destruct ((0 <=? p0) && (p0 <=? len (els x)) && arg_ok (els x) g) eqn:G; [|inversion H; subst; apply Hsame; reflexivity].
+    assert (L : len (insert_list p0 [argval (els x) g] (els x)) = len (els x) + 1) by (rewrite len_insert_list by lia; reflexivity).
+    pose proof (grow_incr_ok c Hc x _ Hv L) as P. apply (finish_fits p a _ _ x _ _ p' r ev x' Hx P L H Hx').
+  - (* InsertRv *) destruct ((0 <=? p0) && (p0 <=? len (els x)) && arg_ok (els x) g) eqn:G; [|inversion H; subst; apply Hsame; reflexivity].
+    assert (L : len (insert_list p0 [argval (els x) g] (after_move (is_tc c) (els x) g)) = len (els x) + 1)
+      by (rewrite len_insert_list by (rewrite len_after_move; lia); rewrite len_after_move; reflexivity).
+    pose proof (one_incr_ok c Hc x _ Hv L) as P. apply (finish_fits p a _ _ x _ _ p' r ev x' Hx P L H Hx').
+  - (* Emplace *) destruct ((0 <=? p0) && (p0 <=? len (els x)) && arg_ok (els x) g) eqn:G; [|inversion H; subst; apply Hsame; reflexivity].
+    assert (L : len (insert_list p0 [argval (els x) g] (els x)) = len (els x) + 1) by (rewrite len_insert_list by lia; reflexivity).
+    pose proof (one_incr_ok c Hc x _ Hv L) as P. apply (finish_fits p a _ _ x _ _ p' r ev x' Hx P L H Hx').
+  - (* InsertN *) destruct ((0 <=? p0) && (p0 <=? len (els x)) && (0 <=? n) && (n <=? M) && arg_ok (els x) g) eqn:G; [|inversion H; subst; apply Hsame; reflexivity].
+    destruct (0 <? n) eqn:Gn.
+    + assert (L : len (insert_list p0 (rep n (argval (els x) g)) (els x)) = b_size c (w x) + n) by (rewrite len_insert_list by lia; rewrite len_rep by lia; lia).
+      assert (Hn0 : 0 <= b_size c (w x) + n) by lia.
+      pose proof (grow_set_ok c Hc x true _ _ Hv Hn0 L ltac:(discriminate)) as P. apply (finish_fits p a _ _ x _ _ p' r ev x' Hx P L H Hx').
+    + unfold finish in H. inversion H; subst. rewrite (get_set_eq p a _ x Hx) in Hx'. inversion Hx'; subst. split; [lia|]. intros _. repeat split; reflexivity.
+  - (* InsertRange *) destruct ((0 <=? p0) && (p0 <=? len (els x))) eqn:G; [|inversion H; subst; apply Hsame; reflexivity]. pose proof (len_nonneg vs). destruct k.
+    + destruct (0 <? len vs) eqn:Gn.
+      * assert (L : len (insert_list p0 vs (els x)) = b_size c (w x) + len vs) by (rewrite len_insert_list by lia; lia).
+        assert (Hn0 : 0 <= b_size c (w x) + len vs) by lia.
+        pose proof (grow_set_ok c Hc x true _ _ Hv Hn0 L ltac:(discriminate)) as P. apply (finish_fits p a _ _ x _ _ p' r ev x' Hx P L H Hx').
+      * unfold finish in H. inversion H; subst. rewrite (get_set_eq p a _ x Hx) in Hx'. inversion Hx'; subst. split; [lia|]. intros _. repeat split; reflexivity.
+    + pose proof (append_input_ok true vs x x [] Hv Hv ltac:(lia) ltac:(lia)) as P.
+      pose proof (append_input_fits true vs x x [] Hv) as F.
+      destruct (append_input c true x x [] vs) as [[v' ev']|[[e v'] ev']]; inversion H; subst;
+        rewrite (get_set_eq p a _ x Hx) in Hx'; inversion Hx'; subst; cbn [w els].
+      * destruct P as (_ & _ & Cm). split; [assumption|]. intros Hfit. rewrite len_insert_list in Hfit by lia. apply F in Hfit.
+        destruct Hfit as (-> & ? & ?). repeat split; assumption.
+      * destruct P as (_ & _ & Lim & Cm & _). split; [assumption|]. intros _.
+        exfalso. apply (Hnt eq_refl e). reflexivity.
+  - (* Erase *) destruct ((0 <=? p0) && (p0 <? len (els x))) eqn:G; [|inversion H; subst; apply Hsame; reflexivity].
+    inversion H; subst. rewrite (get_set_eq p a _ x Hx) in Hx'. inversion Hx'; subst. cbn [w els].
+    destruct (b_decr_ok c Hc (w x) HvB ltac:(lia)) as (_ & _ & C & D). split; [lia|]. intros _. repeat split; assumption.
+  - (* EraseRange *) destruct ((0 <=? p0) && (p0 <=? q) && (q <=? len (els x))) eqn:G; [|inversion H; subst; apply Hsame; reflexivity].
+    inversion H; subst. rewrite (get_set_eq p a _ x Hx) in Hx'. inversion Hx'; subst. destruct (q - p0 =? 0); [split; [lia|intros _; repeat split; reflexivity]|]. cbn [w els].
+    destruct (b_setSize_ok c Hc (w x) (b_size c (w x) - (q - p0)) HvB ltac:(lia)) as (_ & _ & C & D). split; [lia|]. intros _. repeat split; assumption.
+  - (* PopBack *) destruct (0 <? len (els x)) eqn:G; [|inversion H; subst; apply Hsame; reflexivity].
+    inversion H; subst. rewrite (get_set_eq p a _ x Hx) in Hx'. inversion Hx'; subst. cbn [w els].
+    destruct (b_decr_ok c Hc (w x) HvB ltac:(lia)) as (_ & _ & C & D). split; [lia|]. intros _. repeat split; assumption.
+  - (* PopBackVal *) destruct (0 <? len (els x)) eqn:G; [|inversion H; subst; apply Hsame; reflexivity].
+    inversion H; subst. rewrite (get_set_eq p a _ x Hx) in Hx'. inversion Hx'; subst. cbn [w els].
+    destruct (b_decr_ok c Hc (w x) HvB ltac:(lia)) as (_ & _ & C & D). split; [lia|]. intros _. repeat split; assumption.
+  - (* Clear *) inversion H; subst. rewrite (get_set_eq p a _ x Hx) in Hx'. inversion Hx'; subst. cbn [w els].
+    destruct (b_setSize_ok c Hc (w x) 0 HvB ltac:(lia)) as (_ & _ & C & D). split; [lia|]. intros _. repeat split; assumption.
+  - (* Resize *) destruct ((0 <=? n) && (n <=? M)) eqn:G; [|inversion H; subst; apply Hsame; reflexivity].
+    assert (L : len (take n (els x) ++ rep (n - len (els x)) 0) = n) by (rewrite len_app, len_take, len_rep' by lia; lia).
+    pose proof (grow_set_ok c Hc x (b_size c (w x) <? n) n _ Hv ltac:(lia) L ltac:(intros; lia)) as P. apply (finish_fits p a _ _ x _ _ p' r ev x' Hx P L H Hx').
+  - (* ResizeV *) destruct ((0 <=? n) && (n <=? M) && arg_ok (els x) g) eqn:G; [|inversion H; subst; apply Hsame; reflexivity].
+    assert (L : len (take n (els x) ++ rep (n - len (els x)) (argval (els x) g)) = n) by (rewrite len_app, len_take, len_rep' by lia; lia).
+    pose proof (grow_set_ok c Hc x (b_size c (w x) <? n) n _ Hv ltac:(lia) L ltac:(intros; lia)) as P. apply (finish_fits p a _ _ x _ _ p' r ev x' Hx P L H Hx').
+  - (* AssignN *) destruct ((0 <=? n) && (n <=? M) && arg_ok (els x) g) eqn:G; [|inversion H; subst; apply Hsame; reflexivity].
+    assert (L : len (rep n (argval (els x) g)) = n) by (apply len_rep; lia).
+    pose proof (grow_set_ok c Hc x (b_size c (w x) <? n) n _ Hv ltac:(lia) L ltac:(intros; lia)) as P. apply (finish_fits p a _ _ x _ _ p' r ev x' Hx P L H Hx').
+  - (* AssignRange *) unfold assign_range in H. pose proof (len_nonneg vs). destruct k.
+    + pose proof (grow_set_ok c Hc x (b_size c (w x) <? len vs) (len vs) vs Hv ltac:(lia) eq_refl ltac:(intros; lia)) as P.
+      apply (finish_fits p a _ _ x _ _ p' r ev x' Hx P eq_refl H Hx').
+    + destruct (b_setSize_ok c Hc (w x) 0 HvB ltac:(lia)) as (A & B & Cc & D).
+      assert (V0 : VInv {| w := b_setSize c (w x) 0; els := [] |}) by (split; cbn [w els]; [assumption|rewrite B; reflexivity]).
+      pose proof (append_input_ok false vs _ _ [] V0 V0 ltac:(lia) ltac:(lia)) as P.
+      pose proof (append_input_fits false vs {| w := b_setSize c (w x) 0; els := [] |} {| w := b_setSize c (w x) 0; els := [] |} [] V0) as F.
+      unfold finish in H.
+      destruct (append_input c false {| w := b_setSize c (w x) 0; els := [] |} {| w := b_setSize c (w x) 0; els := [] |} [] vs) as [[v' ev']|[[e v'] ev']];
+        inversion H; subst; rewrite (get_set_eq p a _ x Hx) in Hx'; inversion Hx'; subst; cbn [w els] in *.
+      * destruct P as (_ & PE & Cm). split; [lia|]. intros Hfit. rewrite PE in Hfit. cbn [app] in Hfit.
+        destruct (F ltac:(cbn [els w]; change (len []) with 0; lia)) as (-> & ? & ?). repeat split; congruence.
+      * exfalso. apply (Hnt eq_refl e). reflexivity.
+  - (* AppendN *) destruct ((0 <=? n) && (n <=? M)) eqn:G; [|inversion H; subst; apply Hsame; reflexivity].
+    assert (L : len (els x ++ rep n 0) = b_size c (w x) + n) by (rewrite len_app, len_rep by lia; lia).
+    assert (Hn0 : 0 <= b_size c (w x) + n) by lia.
+    pose proof (grow_set_ok c Hc x true _ _ Hv Hn0 L ltac:(discriminate)) as P. apply (finish_fits p a _ _ x _ _ p' r ev x' Hx P L H Hx').
+  - (* AppendNV *) destruct ((0 <=? n) && (n <=? M) && arg_ok (els x) g) eqn:G; [|inversion H; subst; apply Hsame; reflexivity].
+    assert (L : len (els x ++ rep n (argval (els x) g)) = b_size c (w x) + n) by (rewrite len_app, len_rep by lia; lia).
+    assert (Hn0 : 0 <= b_size c (w x) + n) by lia.
+    pose proof (grow_set_ok c Hc x true _ _ Hv Hn0 L ltac:(discriminate)) as P. apply (finish_fits p a _ _ x _ _ p' r ev x' Hx P L H Hx').
+  - (* AppendRange *) unfold append_range in H. pose proof (len_nonneg vs). destruct k.
+    + assert (L : len (els x ++ vs) = b_size c (w x) + len vs) by (rewrite len_app; lia).
+      assert (Hn0 : 0 <= b_size c (w x) + len vs) by lia.
+      pose proof (grow_set_ok c Hc x true _ _ Hv Hn0 L ltac:(discriminate)) as P. apply (finish_fits p a _ _ x _ _ p' r ev x' Hx P L H Hx').
+    + pose proof (append_input_ok true vs x x [] Hv Hv ltac:(lia) ltac:(lia)) as P.
+      pose proof (append_input_fits true vs x x [] Hv) as F. unfold finish in H.
+      destruct (append_input c true x x [] vs) as [[v' ev']|[[e v'] ev']]; inversion H; subst;
+        rewrite (get_set_eq p a _ x Hx) in Hx'; inversion Hx'; subst; cbn [w els].
+      * destruct P as (_ & PE & Cm). split; [assumption|]. intros Hfit. rewrite PE, len_app in Hfit. apply F in Hfit.
+        destruct Hfit as (-> & ? & ?). repeat split; assumption.
+      * exfalso. apply (Hnt eq_refl e). reflexivity.
+  - (* CopyAssign *) destruct (Nat.eqb a b); [inversion H; subst; apply Hsame; reflexivity|]. unfold assign_range in H.
+    pose proof (len_nonneg (els vb)).
+    pose proof (grow_set_ok c Hc x (b_size c (w x) <? len (els vb)) (len (els vb)) (els vb) Hv ltac:(lia) eq_refl ltac:(intros; lia)) as P.
+    apply (finish_fits p a _ _ x _ _ p' r ev x' Hx P eq_refl H Hx').
+  - (* At *) destruct ((0 <=? i) && (i <=? M)); [|inversion H; subst; apply Hsame; reflexivity].
+    destruct (i <? b_size c (w x)); inversion H; subst; apply Hsame; reflexivity.
+Qed.
+
 End Step.
